@@ -56,7 +56,24 @@ var ErrInjected = errors.New("injected write error")
 // answers faster than the sender gets back from its write.
 func (r *Recorder) AfterWrite(f func(TxFrame)) { r.mu.Lock(); r.after = f; r.mu.Unlock() }
 
+// dirtyPool keeps the library's shared frame buffer pool dirty: the send paths build their frames in pooled buffers that
+// earlier sends (of any protocol) have used, so every byte of a frame has to be written by the path that sends it. After each
+// recorded write a few pooled buffers are filled with 0xff and handed back.
+func dirtyPool() {
+	var got [4]*[packet.EthMaxSize]byte
+	for i := range got {
+		got[i] = packet.EtherBufferPool.Get().(*[packet.EthMaxSize]byte)
+		for k := range got[i] {
+			got[i][k] = 0xff
+		}
+	}
+	for i := range got {
+		packet.EtherBufferPool.Put(got[i])
+	}
+}
+
 func (r *Recorder) WriteTo(b []byte, addr net.Addr) (int, error) {
+	defer dirtyPool()
 	n, f, after, err := r.writeTo(b, addr)
 	if err == nil && after != nil {
 		after(f)
